@@ -331,7 +331,7 @@ func c01Exec(cfg *C01Cfg, ch vs.Chooser, trace bool, order []int) (string, *vs.R
 		os.RemoveAll(x.dir)
 	}()
 	outcome := ""
-	res := vs.Run(vs.Config{Chooser: ch, Horizon: 20000, Trace: trace}, func() {
+	res := vs.Run(vs.Config{Chooser: ch, PostUnlockPoints: true, Horizon: 20000, Trace: trace}, func() {
 		vs.NoChoice(true)
 		util.VerifNoSync = true
 		types.ShouldPunchHoles = false
